@@ -337,7 +337,8 @@ def _get_OP_PUSH1_type_args(
 
     if opname == 'OP_PUSH1':
         # human-readable syntax of OP_PUSH1 [size] [val] or OP_PUSH1 [val]
-        if  (   (len(symbols[1]) < 3 or symbols[1][:3] != 'OP_')
+        if  (   len(symbols) > 1
+                and (len(symbols[1]) < 3 or symbols[1][:3] != 'OP_')
                 and symbols[1] not in opcodes_inverse
                 and symbols[1] not in nopcodes_inverse
                 and symbols[1] not in opcode_aliases
@@ -396,7 +397,8 @@ def _get_OP_PUSH2_args(
 
     if opname == 'OP_PUSH2':
         # human-readable syntax of OP_PUSH2 [size] [val] or OP_PUSH2 [val]
-        if  (   (len(symbols[1]) < 3 or symbols[1][:3] != 'OP_')
+        if  (   len(symbols) > 1
+                and (len(symbols[1]) < 3 or symbols[1][:3] != 'OP_')
                 and symbols[1] not in opcodes_inverse
                 and symbols[1] not in nopcodes_inverse
                 and symbols[1] not in opcode_aliases
